@@ -212,7 +212,8 @@ def run(ctx):
         ctx.lost("loader", "loader does not build an OrderBook literal")
     # all entries visited: iteration over state.orders without adapters, insertions inside the loop
     iters = [c for c in lq.calls(("iter", "into_iter", "iter_mut")) if any(fld(x, m.f_orders) for x in walk(c.args[0]) if x[0] == "field") or fld(c.args[0], m.f_orders)]
-    adapters = [c.name for c in lq.calls() if c.name in ("take", "skip", "filter", "step_by", "rev", "zip", "chain", "take_while", "skip_while", "nth", "last", "filter_map")]
+    # (a status `filter` is accounted for by the typestate: skipped entries must not be Active)
+    adapters = [c.name for c in lq.calls() if c.name in ("take", "skip", "step_by", "rev", "zip", "chain", "take_while", "skip_while", "nth", "last", "filter_map")]
     ctx.check(bool(iters) and not adapters, "loader", "visits-all", ctx.loc(ld), "the loader iterates over all stored entries (no iterator adapter)",
               "loader iteration uses adapters %s" % adapters)
     for (c, s) in m.side_op_calls(lq, "insert_order"):
